@@ -47,7 +47,14 @@ type prod struct {
 	holes []hole
 	sem   bool // part of the semantic (CLI vs direct evaluation) enumeration
 	root  bool // directive: only as the outermost construct
+	core  bool // reduced set: one binary operator per precedence level, one construct per kind
+	mini  bool // smallest set used for the deepest semantic level
 }
+
+var coreOps = map[string]bool{"|": true, ",": true, "//": true, "=": true, "|=": true, "or": true, "and": true, "==": true, "<": true, "+": true, "-": true, "*": true, "%": true}
+var miniOps = map[string]bool{"|": true, ",": true, "//": true, "=": true, "or": true, "and": true, "==": true, "+": true, "*": true}
+var miniIDs = map[string]bool{"def0": true, "defv": true, "as": true, "label": true, "neg": true, "paren": true, "array": true, "opt": true, "try": true, "trycatch": true, "if": true, "reduce": true, "foreach2": true, "first": true, "path": true, "interp": true, "objid": true, "idx": true, "dotname": true, "import": true}
+var nonCoreIDs = map[string]bool{"pos": true, "spdotname": true, "slicefrom": true, "sliceto": true, "dslicefrom": true, "dsliceto": true, "dotidx": true, "dotiter": true, "undef1": true, "modcall": true, "objfmt": true, "objtrail": true, "objloc": true, "objvar": true, "objinterpkeyonly": true, "fmtjson": true, "select": true, "ifelifelse": true, "dstrq": true, "dotstrq": true, "moduleempty": true, "import2": true, "importemptypath": true, "includeemptypath": true, "includemeta": true, "importmissing": true}
 
 type atom struct {
 	text string
@@ -179,6 +186,16 @@ func buildProds() []prod {
 	dir("importmissing", true, "import \"nonexisting\" as n; ")
 	dir("importemptypath", false, "import \"\" as e; ")
 	dir("includeemptypath", false, "include \"\"; ")
+	for i := range ps {
+		id := ps[i].id
+		if strings.HasPrefix(id, "op") && len(ps[i].holes) == 2 && !strings.HasPrefix(id, "opt") {
+			ps[i].core = coreOps[id[2:]]
+			ps[i].mini = miniOps[id[2:]]
+			continue
+		}
+		ps[i].core = !nonCoreIDs[id]
+		ps[i].mini = miniIDs[id]
+	}
 	return ps
 }
 
@@ -224,13 +241,45 @@ const (
 type gen struct {
 	prods    []prod
 	atoms    []atom
-	semOnly  bool
+	semOnly  bool // only sem atoms
+	sel      func(p *prod) bool
 	memo     map[string][]item
 	maxMemoN int
+	// rootShard: when shardN > 0 only root productions with index%shardN == shardIdx are expanded
+	shardN, shardIdx int
+}
+
+type genSet int
+
+const (
+	setFull genSet = iota
+	setSem
+	setCore
+	setMini
+)
+
+func newGenSet(set genSet) *gen {
+	g := &gen{prods: buildProds(), atoms: buildAtoms(), memo: map[string][]item{}, maxMemoN: 2}
+	switch set {
+	case setFull:
+		g.sel = func(p *prod) bool { return true }
+	case setSem:
+		g.semOnly = true
+		g.sel = func(p *prod) bool { return p.sem }
+	case setCore:
+		g.sel = func(p *prod) bool { return p.core }
+	case setMini:
+		g.semOnly = true
+		g.sel = func(p *prod) bool { return p.mini }
+	}
+	return g
 }
 
 func newGen(semOnly bool) *gen {
-	return &gen{prods: buildProds(), atoms: buildAtoms(), semOnly: semOnly, memo: map[string][]item{}, maxMemoN: 2}
+	if semOnly {
+		return newGenSet(setSem)
+	}
+	return newGenSet(setFull)
 }
 
 // markers for ordinal-numbered atoms (replaced by fill)
@@ -347,7 +396,7 @@ func (g *gen) leafAtoms(h hole, idx int, scope []string, pol policy) []string {
 }
 
 func (g *gen) usable(p *prod, c cat, root bool) bool {
-	if g.semOnly && !p.sem {
+	if !g.sel(p) {
 		return false
 	}
 	if p.root {
@@ -399,6 +448,9 @@ func (g *gen) enumProds(c cat, n int, scope []string, pol policy, root bool, yie
 	for pi := range g.prods {
 		p := &g.prods[pi]
 		if !g.usable(p, c, root) {
+			continue
+		}
+		if root && g.shardN > 0 && pi%g.shardN != g.shardIdx {
 			continue
 		}
 		if !g.enumProd(p, n-1, scope, pol, yield) {
@@ -484,7 +536,7 @@ func (g *gen) level1Singles(yield func(item) bool) bool { return g.level1(false,
 func (g *gen) level1(pairMode bool, yield func(item) bool) bool {
 	for pi := range g.prods {
 		p := &g.prods[pi]
-		if g.semOnly && !p.sem {
+		if !g.sel(p) {
 			continue
 		}
 		nh := len(p.holes)
